@@ -48,6 +48,7 @@ def run(ctx: Ctx) -> None:
 
 
 KNOCKOUTS = [
+    Knockout("hof-tie-break-stores-old-score", SB, sub_nth("self.hof.insert(i, (score, circuit.copy()))", "self.hof.insert(i, (self.hof[i][0], circuit.copy()))", 0), "hof.order", "displaced entry's score"),
     Knockout("setting-keywords-written-into-default-instance", SB, sub_once("        self.setting = solver_setting\n        self.hof = [(np.inf, None)", "        self.setting = solver_setting\n        for key, value in kwargs.items():\n            setattr(self.setting, key, value)\n        self.hof = [(np.inf, None)"), "effect.shared-default", "shared default"),
     Knockout("tournament-one-deepcopy-of-the-list", SB, sub_once("            population_new.append(copy.deepcopy(best))\n        return population_new", "            population_new.append(best)\n        return copy.deepcopy(population_new)"), "effect.hof-copy", "one deepcopy"),
     Knockout("member-rescoring-skipped-when-node-count-unchanged", EVO, sub_once("                transformation(circuit)\n                circuit.validate()\n", "                n_nodes = circuit.dag.number_of_nodes()\n                transformation(circuit)\n                circuit.validate()\n                if i > 0 and circuit.dag.number_of_nodes() == n_nodes:\n                    continue\n"), "score.fresh", "skipped on some path"),
